@@ -413,7 +413,9 @@ func (p *streamPool) getOrOpenStream() (*Stream, error) {
 	for stream := p.pop(); stream != nil; stream = p.pop() {
 		if !stream.Session().IsClosed() {
 			// ensure return an open stream
-			if stream.IsOpen() {
+			// data that arrived while the stream sat in the pool belongs to its previous use: such a stream is
+			// not handed out again (reset fails on unread data, exactly as in putOrCloseStream)
+			if stream.IsOpen() && stream.reset() == nil {
 				return stream, nil
 			}
 		}
